@@ -13,7 +13,7 @@ import (
 func init() {
 	register(&propDef{
 		ID:          "C19",
-		Explanation: "Decides, for package cmd/templ/generatecmd/sse (every function, go/cfg + type information): R1 no send on a registry channel can follow its close — either the channel type stored in the client registry is never closed and every send on it is one arm of a select whose other arm receives a done signal, or send and close both hold the registry mutex in the same goroutine (a send inside a `go` closure does not hold the caller's lock); R2 while the broadcaster holds the registry mutex it performs no blocking channel operation itself; R3 registration stores under the mutex and removal is deferred, under the mutex; R4 the broadcast loop addresses every registered client (no break/continue/return filter). NOT decided: delivery under all interleavings, liveness of slow readers.",
+		Explanation: "Decides, for package cmd/templ/generatecmd/sse (every function, go/cfg + type information): R1 no send on a registry channel can follow its close — either the channel type stored in the client registry is never closed and every send on it is one arm of a select whose other arm receives a done signal, or send and close both hold the registry mutex in the same goroutine (a send inside a `go` closure does not hold the caller's lock); R2 while the broadcaster holds the registry mutex it performs no blocking channel operation itself; R3 registration stores under the mutex and removal is deferred, under the mutex; R4 the broadcast loop addresses every registered client (no break/continue/return filter); R2 also covers every other function that takes the registry mutex and deferred calls that run before a deferred Unlock (sync.WaitGroup.Wait, sync.Cond.Wait, time.Sleep, channel operations outside a select with default); R5 the key under which a client is registered comes from a never-repeating source (an atomic add of a positive constant on a field that nothing else writes, a field only ever incremented, or a freshly allocated pointer/channel) — a key computed from the registry's current size is reused after a disconnect and replaces a connected client's entry. NOT decided: delivery under all interleavings, liveness of slow readers.",
 		Assumptions: []string{"a send on a closed channel panics; a send in a select with a ready done arm cannot block forever", "net/http cancels r.Context() when ServeHTTP returns"},
 		Trusted:     []string{"go/types", "x/tools go/packages, go/cfg"},
 		Run:         runC19,
@@ -328,6 +328,118 @@ func runC19(c *Ctx) {
 		c.viol("C19.R4", "anchor-lost:broadcast-loop", "", "no function ranges over the client registry")
 	}
 
+	// R2 (whole locked region): nothing that can wait for another goroutine runs while the registry mutex is held,
+	// including deferred calls that run before a deferred Unlock.
+	blockingCallees := map[string]string{
+		"sync.(WaitGroup).Wait": "waits for goroutines", "sync.(Cond).Wait": "waits for a signal", "time.Sleep": "sleeps",
+	}
+	nlocked := 0
+	for _, b := range bodies {
+		fc := newFnCFG(b.Body, info)
+		// deferred unlocks of the registry mutex, in source order
+		var deferredUnlocks []*ast.DeferStmt
+		directNodes(b.Body, func(n ast.Node) bool {
+			if ds, ok := n.(*ast.DeferStmt); ok {
+				if fn := calleeOf(info, ds.Call); fn != nil && (fullName(fn) == "sync.(Mutex).Unlock" || fullName(fn) == "sync.(RWMutex).Unlock") {
+					if se, ok := ds.Call.Fun.(*ast.SelectorExpr); ok && strings.HasSuffix(types.ExprString(se.X), "."+ri.MuFld.Name()) {
+						deferredUnlocks = append(deferredUnlocks, ds)
+					}
+				}
+			}
+			return true
+		})
+		holdsMu := func(n ast.Node) bool {
+			for k := range fc.heldAt(n) {
+				if strings.HasSuffix(k, "."+ri.MuFld.Name()) {
+					return true
+				}
+			}
+			return false
+		}
+		var deferCalls = map[*ast.CallExpr]*ast.DeferStmt{}
+		directNodes(b.Body, func(n ast.Node) bool {
+			if ds, ok := n.(*ast.DeferStmt); ok {
+				deferCalls[ds.Call] = ds
+			}
+			return true
+		})
+		bad := ""
+		usesMu := false
+		directNodes(b.Body, func(n ast.Node) bool {
+			if gs, ok := n.(*ast.GoStmt); ok {
+				_ = gs
+				return false // the started goroutine does not hold the lock
+			}
+			what := ""
+			switch n := n.(type) {
+			case *ast.CallExpr:
+				fn := calleeOf(info, n)
+				if fn == nil {
+					return true
+				}
+				if why, ok := blockingCallees[fullName(fn)]; ok {
+					what = types.ExprString(n.Fun) + "() " + why
+				}
+				if what == "" {
+					return true
+				}
+				if ds, isDeferred := deferCalls[n]; isDeferred {
+					// runs at function exit, before every deferred Unlock registered earlier
+					for _, du := range deferredUnlocks {
+						if du.Pos() < ds.Pos() {
+							usesMu = true
+							bad = "deferred " + what + " (registered at " + c.pos(ds.Pos()) + " after `defer " + types.ExprString(du.Call) + "`, so it runs before the unlock)"
+						}
+					}
+					return true
+				}
+			case *ast.SendStmt:
+				if sel, _ := enclosingSelect(b.Body, n); sel == nil || !selectHasDefault(sel) {
+					what = "send " + types.ExprString(n.Chan) + " <- …"
+				}
+			case *ast.UnaryExpr:
+				if n.Op == token.ARROW {
+					if sel, _ := enclosingSelect(b.Body, n); sel == nil || !selectHasDefault(sel) {
+						what = "receive <-" + types.ExprString(n.X)
+					}
+				}
+			}
+			if what == "" {
+				return true
+			}
+			if holdsMu(n) {
+				usesMu = true
+				bad = what + " at " + c.pos(n.Pos())
+			}
+			return true
+		})
+		// only bodies that take the registry mutex carry an obligation
+		directNodes(b.Body, func(n ast.Node) bool {
+			if call, ok := n.(*ast.CallExpr); ok {
+				if fn := calleeOf(info, call); fn != nil && (fullName(fn) == "sync.(Mutex).Lock" || fullName(fn) == "sync.(RWMutex).Lock" || fullName(fn) == "sync.(RWMutex).RLock") {
+					if se, ok := call.Fun.(*ast.SelectorExpr); ok && strings.HasSuffix(types.ExprString(se.X), "."+ri.MuFld.Name()) {
+						usesMu = true
+					}
+				}
+			}
+			return true
+		})
+		if !usesMu {
+			continue
+		}
+		nlocked++
+		name := funcKey(p, b.Decl)
+		if b.Lit != nil {
+			name += "|closure"
+		}
+		c.check(bad == "", "C19.R2", name+"|locked-region-never-waits", c.pos(b.Body.Pos()), "no wait for another goroutine while the registry mutex is held",
+			"while holding the registry mutex this function waits for another goroutine: "+bad+". A client that stalls (or disconnects: its cleanup needs the same mutex) then blocks the broadcaster, every other client and every subscribe/unsubscribe")
+	}
+	c.count("bodies_taking_registry_mutex", nlocked)
+
+	// R5: registry keys are never reused while a client is connected ---------------------
+	registryKeys(c, p, ri, bodies, isRegMap)
+
 	// R3: registration and removal ---------------------------------------------------
 	nstore, ndel := 0, 0
 	for _, b := range bodies {
@@ -377,4 +489,197 @@ func selectHasDefault(s *ast.SelectStmt) bool {
 		}
 	}
 	return false
+}
+
+// registryKeys: C19.R5.
+func registryKeys(c *Ctx, p *packages.Package, ri *registryInfo, bodies []bodyInfo, isRegMap func(ast.Expr) bool) {
+	info := p.TypesInfo
+	n := 0
+	for _, b := range bodies {
+		directNodes(b.Body, func(x ast.Node) bool {
+			as, ok := x.(*ast.AssignStmt)
+			if !ok {
+				return true
+			}
+			for _, l := range as.Lhs {
+				ix, ok := l.(*ast.IndexExpr)
+				if !ok || !isRegMap(ix.X) {
+					continue
+				}
+				n++
+				okKey, why := uniqueKeySource(info, p, b, ix.Index, 0)
+				c.check(okKey, "C19.R5", funcKey(p, b.Decl)+"|registry-key-never-reused", c.pos(as.Pos()), "registry key: "+why,
+					"the key a client is registered under ("+types.ExprString(ix.Index)+") is "+why+": after a client has left, a new client can be given the key of one that is still connected and replaces its entry, so that client silently stops receiving events")
+			}
+			return true
+		})
+	}
+	c.count("registry_store_sites", n)
+}
+
+func uniqueKeySource(info *types.Info, p *packages.Package, b bodyInfo, e ast.Expr, depth int) (bool, string) {
+	e = ast.Unparen(e)
+	if depth > 4 {
+		return false, "not traced to a never-repeating source"
+	}
+	switch e := e.(type) {
+	case *ast.Ident:
+		obj := info.ObjectOf(e)
+		var rhs ast.Expr
+		ndef := 0
+		ast.Inspect(b.Decl.Body, func(x ast.Node) bool {
+			switch s := x.(type) {
+			case *ast.AssignStmt:
+				for i, l := range s.Lhs {
+					if id, ok := l.(*ast.Ident); ok && info.ObjectOf(id) == obj {
+						ndef++
+						if len(s.Rhs) == len(s.Lhs) {
+							rhs = s.Rhs[i]
+						} else {
+							rhs = s.Rhs[0]
+						}
+					}
+				}
+			case *ast.IncDecStmt:
+				if id, ok := s.X.(*ast.Ident); ok && info.ObjectOf(id) == obj {
+					ndef += 2
+				}
+			}
+			return true
+		})
+		if ndef != 1 || rhs == nil {
+			return false, fmt.Sprintf("a variable with %d assignments (not traced)", ndef)
+		}
+		return uniqueKeySource(info, p, b, rhs, depth+1)
+	case *ast.CallExpr:
+		if id, ok := e.Fun.(*ast.Ident); ok && (id.Name == "make" || id.Name == "new") {
+			return true, "a freshly allocated value"
+		}
+		if tv, ok := info.Types[e.Fun]; ok && tv.IsType() && len(e.Args) == 1 {
+			return uniqueKeySource(info, p, b, e.Args[0], depth+1)
+		}
+		fn := calleeOf(info, e)
+		if fn == nil {
+			return false, "the result of an unresolved call"
+		}
+		full := fullName(fn)
+		if strings.HasPrefix(full, "sync/atomic.Add") && len(e.Args) == 2 {
+			if tv := info.Types[e.Args[1]]; tv.Value != nil && constantPositive(tv) {
+				if ue, ok := ast.Unparen(e.Args[0]).(*ast.UnaryExpr); ok && ue.Op == token.AND {
+					if fld := fieldOf(info, ue.X); fld != nil {
+						if w := otherWrites(p, fld, e); w != "" {
+							return false, "an atomic counter that is also written at " + w
+						}
+						return true, "atomic add of a positive constant on field " + fld.Name() + " (no other writes)"
+					}
+				}
+			}
+			return false, "an atomic add whose operand or delta is not a plain field / positive constant"
+		}
+		if strings.HasPrefix(full, "sync/atomic.(Int") || strings.HasPrefix(full, "sync/atomic.(Uint") {
+			if fn.Name() == "Add" && len(e.Args) == 1 {
+				if tv := info.Types[e.Args[0]]; tv.Value != nil && constantPositive(tv) {
+					return true, "atomic Add of a positive constant"
+				}
+			}
+		}
+		return false, "the result of " + full + ", which is not a never-repeating counter"
+	case *ast.UnaryExpr:
+		if e.Op == token.AND {
+			if _, ok := ast.Unparen(e.X).(*ast.CompositeLit); ok {
+				return true, "the address of a fresh composite literal"
+			}
+		}
+	case *ast.SelectorExpr:
+		if fld := fieldOf(info, e); fld != nil {
+			// a field only ever incremented
+			onlyInc := true
+			ninc := 0
+			for _, fd := range allFuncDecls(p) {
+				ast.Inspect(fd.Body, func(x ast.Node) bool {
+					switch s := x.(type) {
+					case *ast.IncDecStmt:
+						if fieldOf(info, s.X) == fld {
+							if s.Tok == token.INC {
+								ninc++
+							} else {
+								onlyInc = false
+							}
+						}
+					case *ast.AssignStmt:
+						for _, l := range s.Lhs {
+							if fieldOf(info, l) == fld {
+								if s.Tok == token.ADD_ASSIGN && len(s.Rhs) == 1 && info.Types[s.Rhs[0]].Value != nil && constantPositive(info.Types[s.Rhs[0]]) {
+									ninc++
+								} else {
+									onlyInc = false
+								}
+							}
+						}
+					}
+					return true
+				})
+			}
+			if onlyInc && ninc > 0 {
+				return true, "field " + fld.Name() + ", which is only ever incremented"
+			}
+			return false, "field " + fld.Name() + ", which is not a strictly increasing counter"
+		}
+	case *ast.BinaryExpr:
+		return false, "computed as `" + types.ExprString(e) + "`, which is not a never-repeating counter (the registry shrinks when clients leave)"
+	}
+	return false, "`" + types.ExprString(e) + "`, not traced to a never-repeating source"
+}
+
+func constantPositive(tv types.TypeAndValue) bool {
+	return tv.Value != nil && strings.TrimLeft(tv.Value.ExactString(), "0123456789") == "" && tv.Value.ExactString() != "0"
+}
+
+func fieldOf(info *types.Info, e ast.Expr) *types.Var {
+	se, ok := ast.Unparen(e).(*ast.SelectorExpr)
+	if !ok {
+		return nil
+	}
+	if sel, ok := info.Selections[se]; ok {
+		if v, ok := sel.Obj().(*types.Var); ok && v.IsField() {
+			return v
+		}
+	}
+	return nil
+}
+
+// otherWrites: assignments / inc / dec / atomic stores of the field other than the given call.
+func otherWrites(p *packages.Package, fld *types.Var, except *ast.CallExpr) string {
+	info := p.TypesInfo
+	out := ""
+	for _, fd := range allFuncDecls(p) {
+		ast.Inspect(fd.Body, func(x ast.Node) bool {
+			switch s := x.(type) {
+			case *ast.AssignStmt:
+				for _, l := range s.Lhs {
+					if fieldOf(info, l) == fld {
+						out = p.Fset.Position(s.Pos()).String()
+					}
+				}
+			case *ast.IncDecStmt:
+				if fieldOf(info, s.X) == fld {
+					out = p.Fset.Position(s.Pos()).String()
+				}
+			case *ast.CallExpr:
+				if s == except {
+					return true
+				}
+				if fn := calleeOf(info, s); fn != nil && strings.HasPrefix(fullName(fn), "sync/atomic.") && !strings.HasPrefix(fn.Name(), "Load") && len(s.Args) > 0 {
+					if ue, ok := ast.Unparen(s.Args[0]).(*ast.UnaryExpr); ok && ue.Op == token.AND && fieldOf(info, ue.X) == fld {
+						if strings.HasPrefix(fn.Name(), "Add") && len(s.Args) == 2 && info.Types[s.Args[1]].Value != nil && constantPositive(info.Types[s.Args[1]]) {
+							return true
+						}
+						out = p.Fset.Position(s.Pos()).String()
+					}
+				}
+			}
+			return true
+		})
+	}
+	return out
 }
